@@ -1207,7 +1207,14 @@ func staleCapacityReslices(p *Program, fn *ssa.Function) (int, []Finding) {
 			n++
 			viaCap := mentionsCap(sl.High, 0)
 			if !viaCap {
-				for _, g := range dominatingGuards(b) {
+				// any comparison of the bound with a capacity in the function (the usual shape is
+				// `if cap(buf) < n { buf = make(...) }; buf = buf[:n]`, where the test does not dominate)
+				for _, ob := range fn.Blocks {
+					iff, ok := ob.Instrs[len(ob.Instrs)-1].(*ssa.If)
+					if !ok {
+						continue
+					}
+					g := atomOf(iff.Cond)
 					if g.Kind == "cmp" && ((sameValue(g.X, sl.High, 0) && mentionsCap(g.Y, 0)) || (sameValue(g.Y, sl.High, 0) && mentionsCap(g.X, 0))) {
 						viaCap = true
 					}
